@@ -233,6 +233,8 @@ def fuzz(ctx, rng, n):
         if k < 0.30:
             w = rng.choice(small + [rng.randint(1, 200)])
             h = rng.choice([1, 2, 3, 8, 9, 16, 40, 64, 200, rng.randint(1, 200)])
+            if rng.random() < 0.02:         # a few large pictures
+                w, h = rng.choice([(640, 480), (1000, 30), (30, 1000), (400, 400)])
             out.append(E("img", rng.choice(READERS), [rng.randrange(12), w, h, rng.randrange(1 << 30), rng.randint(1, 60),
                                                        rng.randrange(2)], h=hints(rng)))
         elif k < 0.55:
@@ -384,7 +386,18 @@ def describe(o, ent):
     return ev
 
 
-def judge(ctx, inputs, label, meta=None, watchdog_ms=20000, reproduce=True):
+BATCH = 160000
+
+
+def judge(ctx, inputs, label, watchdog_ms=20000, reproduce=True):
+    """in batches (bounded memory of the TLC shards): drive -> validate -> reproduce -> reject"""
+    obs = []
+    for lo in range(0, len(inputs), BATCH):
+        obs += judge_batch(ctx, inputs[lo:lo + BATCH], label, watchdog_ms, reproduce)
+    return obs
+
+
+def judge_batch(ctx, inputs, label, watchdog_ms=20000, reproduce=True):
     """drive -> validate -> reproduce every rejected call -> reject (known finding | violation)"""
     obs = drive(ctx, inputs, watchdog_ms)
     bad = vlib.validate(ctx, "Trace_Totality", obs, stateless=True, timeout=2400)
@@ -394,7 +407,6 @@ def judge(ctx, inputs, label, meta=None, watchdog_ms=20000, reproduce=True):
         if o.get("skip"):
             skipped += 1
             continue
-        m = meta[i] if meta else None
         if o["op"] == "eci":
             for _ in range(o["a"][2] - 1):
                 ctx.evaluations += 1
